@@ -338,7 +338,7 @@ class CodeGenerator(nunavut._generators.AbstractGenerator):
                 else:
                     raise ValueError(f"PostProcessor type {type(pp)} is unknown.")
         logger.debug("Using post-processors: %r %r", line_pps, file_pps)
-
+        _reset_line_post_processors(line_pps)
         self._handle_overwrite(output_path, allow_overwrite)
         output_path.parent.mkdir(parents=True, exist_ok=True)
         with open(str(output_path), "w", encoding="utf-8") as output_file:
@@ -995,6 +995,7 @@ class SupportGenerator(CodeGenerator):
     ) -> None:
         # newline="" disables newline translation so the line endings of the resource are preserved and
         # a last line without a terminator is not truncated.
+        _reset_line_post_processors(line_pps)
         with open(str(target), "w", encoding="utf-8", newline="") as target_file:
             with open(str(resource), "r", encoding="utf-8", newline="") as resource_file:
 
@@ -1028,3 +1029,14 @@ def _rejoin_split_crlf(parts: typing.Iterable[str]) -> typing.Generator[str, Non
         yield part
     if len(pending) > 0:
         yield pending
+
+
+def _reset_line_post_processors(line_pps: typing.List["nunavut._postprocessors.LinePostProcessor"]) -> None:
+    """
+    Line post-processors may keep state from one line to the next (:class:`nunavut._postprocessors.LimitEmptyLines`
+    counts consecutive empty lines); that state must not leak from one generated file into the next one.
+    """
+    for line_pp in line_pps:
+        reset = getattr(line_pp, "reset", None)
+        if callable(reset):
+            reset()
